@@ -430,7 +430,11 @@ class Executor:
                 if pr[0] == "index":
                     iv = self.read_node(self.local_node(st, fid, body, pr[1]))
                     key = ("idx", str(z3.simplify(iv)) if isinstance(iv, z3.ExprRef) else str(iv))
-                node = self.child(node, key, None)
+                ety = None
+                mt = re.match(r"^\[(.+?)(?:; [^\]]+)?\]$", (node.ty or "").strip())
+                if mt:
+                    ety = mt.group(1)          # element type of a slice / array place
+                node = self.child(node, key, ety)
             else:
                 raise Unsupported(str(pr))
         return node
@@ -1092,6 +1096,21 @@ class Executor:
                 j -= 1
             if j >= 2 and base[j - 2:j] == "::":
                 base = base[:j - 2]
+        mb = re.match(r"^(?:core::|std::)?bool::(?:<impl bool>::)?(then_some|then)$", base)
+        if mb and len(argvals) == 2:
+            c0 = argvals[0]
+            if isinstance(c0, Ptr):
+                c0 = self.read_node(c0.node)
+            if isinstance(c0, Node):
+                c0 = self.read_node(c0)
+            cb = c0 if isinstance(c0, z3.BoolRef) else self.as_bv(c0) != 0
+            if mb.group(1) == "then_some":
+                yes = lambda ex, st_, tr: ex.mk_variant("Option", 1, "Some", tr(argvals[1]))
+            else:
+                def yes(ex, st_, tr):
+                    r = ex.apply(tr(argvals[1]), [], callee)
+                    return Wrap(r, lambda ex2, v: ex2.mk_variant("Option", 1, "Some", v)) if isinstance(r, Inline) else ex.mk_variant("Option", 1, "Some", r)
+            return Fork([(cb, yes), (z3.Not(cb), lambda ex, st_, tr: ex.mk_variant("Option", 0, "None"))])
         m = re.match(r"^(?:std::option::|core::option::)?Option::<.*>::(\w+)$", base)
         kind = "Option" if m else None
         if not m:
